@@ -751,4 +751,144 @@ pub fn outcome_table(ctx: &mut Ctx) {
     }
 }
 
+/// HASHCOLL: explore the POSITION graph of a shuffle game (model-driven BFS, dedup on exact
+/// identity). Distinct identities with equal Zobrist hashes, one reachable from the other, are
+/// turned into a witness game that is replayed on a real MoveChain, where the repetition count
+/// must then disagree with the game history.
+pub fn hash_collisions(ctx: &mut Ctx, name: &str, start: &Pos, alphabet: &[&str], max_states: usize) {
+    use std::collections::{HashMap, VecDeque};
+    type Ident = ([u8; 64], u8, [bool; 4], Option<u8>);
+    let alpha: Vec<(u8, u8, u8)> = alphabet.iter().filter_map(|t| text::parse_uci(t)).collect();
+    let moves_of = |p: &Pos| -> Vec<Mv> { p.legal().into_iter().filter(|m| alpha.contains(&(m.from, m.to, m.promo))).collect() };
+    // forward BFS with parent pointers
+    let mut idx: HashMap<Ident, usize> = HashMap::new();
+    let mut nodes: Vec<(Pos, Option<(usize, Mv)>)> = vec![(*start, None)];
+    idx.insert(start.ident(), 0);
+    let mut q = VecDeque::from([0usize]);
+    while let Some(i) = q.pop_front() {
+        let p = nodes[i].0;
+        for m in moves_of(&p) {
+            let mut n = p.apply(m);
+            n.hmc = 0;
+            n.fmn = 1;
+            if !idx.contains_key(&n.ident()) && nodes.len() < max_states {
+                idx.insert(n.ident(), nodes.len());
+                nodes.push((n, Some((i, m))));
+                q.push_back(nodes.len() - 1);
+            }
+        }
+    }
+    ctx.states += nodes.len() as u64;
+    // group by the implementation's hash
+    let mut by_hash: HashMap<u64, Vec<usize>> = HashMap::new();
+    for (i, (p, _)) in nodes.iter().enumerate() {
+        if let Some(b) = board_of(p) {
+            by_hash.entry(b.zobrist_hash()).or_default().push(i);
+        }
+    }
+    let path_to = |mut i: usize| -> Vec<Mv> {
+        let mut v = Vec::new();
+        while let Some((pi, m)) = nodes[i].1 {
+            v.push(m);
+            i = pi;
+        }
+        v.reverse();
+        v
+    };
+    for (_, group) in by_hash.iter().filter(|(_, g)| g.len() > 1) {
+        for &a in group {
+            for &b in group {
+                if a == b {
+                    continue;
+                }
+                // is b reachable from a? (BFS in the same graph)
+                let mut seen: HashMap<Ident, Option<(Ident, Mv)>> = HashMap::new();
+                let sa = nodes[a].0;
+                seen.insert(sa.ident(), None);
+                let mut qq = VecDeque::from([sa]);
+                let target = nodes[b].0.ident();
+                let mut found = false;
+                while let Some(p) = qq.pop_front() {
+                    if p.ident() == target {
+                        found = true;
+                        break;
+                    }
+                    for m in moves_of(&p) {
+                        let mut n = p.apply(m);
+                        n.hmc = 0;
+                        n.fmn = 1;
+                        if !seen.contains_key(&n.ident()) {
+                            seen.insert(n.ident(), Some((p.ident(), m)));
+                            qq.push_back(n);
+                        }
+                    }
+                }
+                if !found {
+                    continue;
+                }
+                let mut tail = Vec::new();
+                let mut cur = target;
+                while let Some(Some((prev, m))) = seen.get(&cur) {
+                    tail.push(*m);
+                    cur = *prev;
+                }
+                tail.reverse();
+                let mut game = path_to(a);
+                game.extend(tail);
+                // replay on a real chain and on the model
+                let Some(b0) = board_of(start) else { return };
+                let mut chain = MoveChain::new(b0);
+                let mut model = MChain::new(*start);
+                for m in &game {
+                    let cur = *model.cur();
+                    let Ok(mv) = to_move(&cur, *m) else { return };
+                    if chain.push(mv).is_err() || !model.push(*m) {
+                        return;
+                    }
+                }
+                ctx.transitions += game.len() as u64;
+                ctx.traces += 1;
+                let occ = model.occurrences();
+                let cnt = chain.verif_parts().0.verif_counts();
+                let mine = cnt.iter().find(|(h, _)| *h == chain.last().zobrist_hash()).map(|c| c.1).unwrap_or(0);
+                let (tier, reasons) = model.calc();
+                let got = chain.calc_outcome();
+                let ok_out = match got {
+                    None => tier == 0,
+                    Some(o) => mout_of(&o).map(|mo| mo.tier() == tier && reasons.contains(&mo)).unwrap_or(false),
+                };
+                if mine != occ || !ok_out {
+                    ctx.violate(
+                        json!({"kind": "collision", "game": name, "start": text::fen(start), "moves": game.iter().map(|m| text::uci(*m)).collect::<Vec<_>>()}),
+                        format!("two different positions of one game share a Zobrist hash: after this game the current position has occurred {} time(s) but the chain counts {} (calc_outcome {:?}, history says tier {} {:?})", occ, mine, got, tier, reasons),
+                    );
+                    return;
+                }
+            }
+        }
+    }
+}
+
+pub fn replay_collision(case: &Value, ctx: &mut Ctx) {
+    let Some(start) = case["start"].as_str().and_then(text::read_fen) else { return };
+    let Some(b0) = board_of(&start) else { return };
+    let mut chain = MoveChain::new(b0);
+    let mut model = MChain::new(start);
+    for u in case["moves"].as_array().cloned().unwrap_or_default() {
+        let Some(u) = u.as_str() else { return };
+        let cur = *model.cur();
+        let Some(m) = cur.legal().into_iter().find(|m| text::uci(*m) == u) else { return };
+        let Ok(mv) = to_move(&cur, m) else { return };
+        if chain.push(mv).is_err() || !model.push(m) {
+            return;
+        }
+    }
+    let occ = model.occurrences();
+    let cnt = chain.verif_parts().0.verif_counts();
+    let mine = cnt.iter().find(|(h, _)| *h == chain.last().zobrist_hash()).map(|c| c.1).unwrap_or(0);
+    if mine != occ {
+        ctx.violate(case.clone(), format!("the current position has occurred {} time(s) but the chain counts {}", occ, mine));
+    }
+}
+
 pub fn _unused(_: &Board) {}
